@@ -436,7 +436,30 @@ func runC18_6(c *Ctx) {
 			reach := p.ReachableFromBlock(fn.Blocks[0], func(i ssa.Instruction) bool { return i == target }, func(i ssa.Instruction) bool { return IsCallTo(i, stop) },
 				func(b *ssa.BasicBlock, si int) bool { return !nilEdge[[2]*ssa.BasicBlock{b, b.Succs[si]}] })
 			if len(reach) > 0 {
-				ok, why = false, "the ticker field of "+FnName(fn)+" can be replaced without stopTicker() on a path where a ticker exists"
+				// the helper itself does not stop: then every call of it from update's side must come after a stop
+				covered := fn != upd
+				if covered {
+					nSites := 0
+					for _, caller := range cands {
+						for _, hc := range AllCalls(caller) {
+							if hc.Common().StaticCallee() != fn {
+								continue
+							}
+							nSites++
+							site := hc.(ssa.Instruction)
+							r2 := p.ReachableFromBlock(caller.Blocks[0], func(i ssa.Instruction) bool { return i == site }, func(i ssa.Instruction) bool { return IsCallTo(i, stop) }, nil)
+							if len(r2) > 0 {
+								covered = false
+							}
+						}
+					}
+					if nSites == 0 {
+						covered = false
+					}
+				}
+				if !covered {
+					ok, why = false, "the ticker field of "+FnName(fn)+" can be replaced without stopTicker() on a path where a ticker exists"
+				}
 			}
 			passes, _ := p.MustPassBeforeExit(st, func(i ssa.Instruction) bool {
 				g, isGo := i.(*ssa.Go)
